@@ -1,6 +1,9 @@
 """C10 — saved curation state survives any save/reload history (DESIGN.md §5 C10)."""
 import csv
+import fnmatch
+import hashlib
 import io
+import zlib
 from fractions import Fraction
 import numpy as np
 from . import common as C
@@ -13,22 +16,41 @@ BATCH = 60
 BUDGET_S = {'quick': 90, 'thorough': 1500}
 RULE = ('histories over {save_spike_clusters(random reassignment), save_metadata(field, mapping with ints / '
         'floats / non-numeric strings incl. tabs, commas, quotes / None), write foreign TSV/CSV (valid / empty / '
-        'ragged / unterminated quote / repeated cluster_id column; also files carrying a field that save_metadata '
-        'writes, as .csv and as .tsv), save_spikes_subset_waveforms(unit factor 1, 2, 0.5), close, reload} on generated '
-        'datasets with raw data; after every reload the loaded model is compared with the Lean disk model (metadata in '
-        'the visiting order of the real directory, spike templates / times, subset store ids, channel rows and '
-        'waveforms) and with the abstract last-write-wins state; after close only reload follows. '
+        'ragged / unterminated quote / repeated cluster_id column / ids written differently but numerically equal '
+        '(1, 01, 1.0, 1e0), fractional and text ids; also files carrying a field that save_metadata '
+        'writes, as .csv and as .tsv, incl. cluster_<field>.tsv itself), save_spikes_subset_waveforms(unit factor 1, 2, '
+        '0.5), close, reload} on generated datasets: assignments in spike_clusters.npy / spikes.clusters.npy / a labelled '
+        'spikes.clusters.<label>.npy / no file (created by the first load); with and without raw data; directories that '
+        'start with KiloSort\'s own cluster_*.tsv files and / or with the subset store of an earlier session. After every '
+        'reload the loaded model is compared with the Lean disk model (metadata in the visiting order of the real '
+        'directory, ids with their key type, spike templates / times, subset store PRESENCE, ids, channel rows and '
+        'waveforms, names of the assignment files) and with the abstract last-write-wins state; after EVERY step the '
+        'bytes of every file in the directory are compared with those before the step: only the files the Lean model '
+        'names (touched) may differ; after close only reload follows. '
         'non-trivial = history with >= 2 saves of metadata or clusters and >= 1 reload')
 ASSUMPTIONS = ['csv parsing and number parsing/formatting are transport: foreign file texts are parsed with the csv module '
-               'and cells classified with int()/float() by the harness before they reach the Lean model',
+               'and cells classified with int()/float() by the harness before they reach the Lean model (for a float id also '
+               'the integer it equals, if any: Python dict keys compare by numeric value); the codec hypotheses of the Lean '
+               'theorems (parse(render c) = c, render c nonempty) are required of the SAVED cells only, str / csv quoting / '
+               '_try_make_number meet them on the generated values (ints, floats, non-empty strings that are no numerals), '
+               'and the type and value of every shown cell is judged',
                'the metadata field name "info" is outside the domain (cluster_info.tsv is deliberately ignored on load)',
                'the order in which glob lists the directory is observed at each reload and given to the Lean loader model '
                '(the code does not determine it); the last saved mapping of a field is claimed when the saved file is the '
                'last visited file saying anything about the field (Lean: view_field_eq_last / metadata_last_saved_among_files)',
                'the spike selection of save_spikes_subset_waveforms (random, C17) and get_template().channel_ids (C05) are '
-               'observed on the real model and given to the Lean model']
-FIELDS = ['group', 'quality', 'n_x', 'in', 'ks.label', 'ks.contam', 'ks', 'info.x']   # 'in': cluster_in.tsv is a prefix of the ignored cluster_info.tsv; dotted names: the part after the last dot is not a suffix
+               'observed on the real model and given to the Lean model',
+               'the assignment files present when the history starts (names, contents) are read from the real directory; '
+               'whitening_mat_inv.npy, which a load creates when it is absent, is outside the C10 model (the byte '
+               'comparison allows exactly that creation)',
+               'ids that parse to nan are not generated (a nan key equals no key, the Lean key classes do not cover it)']
+FIELDS = ['group', 'quality', 'n_x', 'in', 'ks.label', 'ks.contam', 'ks', 'info.x', 'KSLabel']   # 'in': cluster_in.tsv is a prefix of the ignored cluster_info.tsv; dotted names: the part after the last dot is not a suffix
 TEXTS = ['good', 'mua', 'a\tb', 'x,y', 'say "hi"', 'noise ']
+
+
+def ftok(x):
+    """token of a float value (identity of the value; repr round-trips)"""
+    return zlib.crc32(repr(float(x)).encode()) % 1000000
 
 
 def cell_of(v):
@@ -37,26 +59,29 @@ def cell_of(v):
     if isinstance(v, int):
         return {'int': v}
     if isinstance(v, float):
-        return {'float': abs(hash(repr(v))) % 1000000}
+        return {'float': ftok(v)}
     return {'text': v}
 
 
-def tag(s):
-    """classification of a cell string as _try_make_number does (transport)"""
+def tag(s, fints=None):
+    """classification of a cell string as _try_make_number does (transport); `fints` collects, for every float
+    token, the integer its value equals when there is one (what decides whether it is the same dict key as an int)"""
     if s == '':
         return ''
     try:
         return 'I%d' % int(s)
     except ValueError:
         try:
-            return 'F%d' % (abs(hash(repr(float(s)))) % 1000000)
+            x = float(s)
         except ValueError:
             return 'T' + s
+        if fints is not None and x == x and abs(x) != float('inf') and x.is_integer():
+            fints[ftok(x)] = int(x)
+        return 'F%d' % ftok(x)
 
 
-def parse_foreign(text, ext):
+def parse_foreign(text, ext, fints=None):
     """what read_tsv sees: None when it raises (empty file), else (header, rows of tagged cells)"""
-    lines = io.StringIO(text, newline='')
     first = text.split('\n')[0] if text else ''
     delim = '\t' if '\t' in first else ','
     try:
@@ -65,19 +90,59 @@ def parse_foreign(text, ext):
         rows = [list(r) for r in rd]
     except Exception:
         return None
-    return dict(header=header, rows=[[tag(c) for c in r] for r in rows])
+    return dict(header=header, rows=[[tag(c, fints) for c in r] for r in rows])
+
+
+ASSIGN_PATTERNS = ('spike_clusters.npy', 'spikes.clusters*.npy')      # the loader's _find_path patterns
+SUBSET_FILES = ('_phy_spikes_subset.spikes.npy', '_phy_spikes_subset.channels.npy', '_phy_spikes_subset.waveforms.npy')
+TIMES_FILES = ('spike_templates.npy', 'spikes.templates.npy', 'spike_times.npy', 'spikes.times.npy', 'spikes.samples.npy')
+
+
+def _snap(d):
+    """name -> digest of the bytes, for everything in the dataset directory"""
+    out = {}
+    for p in sorted(d.iterdir()):
+        out[p.name] = hashlib.sha1(p.read_bytes()).hexdigest()[:16] if p.is_file() else 'dir'
+    return out
+
+
+def _assign_files(d):
+    out = []
+    for p in sorted(d.iterdir()):
+        if fnmatch.fnmatchcase(p.name, ASSIGN_PATTERNS[0]):
+            out.append([None, [int(x) for x in np.load(p).ravel()]])
+        elif fnmatch.fnmatchcase(p.name, ASSIGN_PATTERNS[1]):
+            out.append([p.name[len('spikes.clusters'):-len('.npy')], [int(x) for x in np.load(p).ravel()]])
+    return out
 
 
 def impl(case):
     from phylib.io.model import load_model
-    views, sels = [], []
+    views, sels, snaps = [], [], []
+    factor = case.get('factor', 1.)
     with C.scratch_dir() as d:
         params = D.write_dataset(d, case['spec'])
+        pre_sel = None
+        pre = case.get('pre_export')
+        if pre:
+            # an earlier session of phy on this dataset exported the subset: the history starts with its files
+            m0 = load_model(params)
+            np.random.seed(pre['rs'])
+            m0.save_spikes_subset_waveforms(max_n_spikes_per_template=pre['nst'], max_n_channels=pre['max_n'],
+                                            sample2unit=factor)
+            m0.close()
+            if (d / SUBSET_FILES[0]).exists():
+                pre_sel = [int(x) for x in np.load(d / SUBSET_FILES[0]).ravel()]
+        assign0 = _assign_files(d)          # the assignment files the history starts with (names, contents)
+        snaps.append(_snap(d))
         m = load_model(params)
+        snaps.append(_snap(d))
         used = sorted(int(t) for t in np.unique(m.spike_templates))
+        has_raw = m.traces is not None
         init = dict(orders={str(t): [int(c) for c in m.get_template(t).channel_ids] for t in used},
                     closest=int(m.n_closest_channels), n_templates=int(m.n_templates), nsw=int(m.n_samples_waveforms),
-                    chunks=[[int(a), int(b)] for a, b in m.traces.iter_chunks()])
+                    chunks=[[int(a), int(b)] for a, b in m.traces.iter_chunks()] if has_raw else [],
+                    has_raw=has_raw, assign0=assign0, pre_sel=pre_sel)
         closed = False
         for o in case['ops']:
             k = o['k']
@@ -90,9 +155,9 @@ def impl(case):
             elif k == 'save_subset':
                 np.random.seed(o.get('rs', 0))
                 m.save_spikes_subset_waveforms(max_n_spikes_per_template=o['nst'], max_n_channels=o['max_n'],
-                                               sample2unit=case.get('factor', 1.))
-                # the selection (random): read back from the file the call wrote
-                sels.append([int(x) for x in np.load(d / '_phy_spikes_subset.spikes.npy').ravel()])
+                                               sample2unit=factor)
+                # the selection (random): read back from the file the call wrote (without raw data nothing is written)
+                sels.append([int(x) for x in np.load(d / SUBSET_FILES[0]).ravel()] if has_raw else [])
             elif k == 'close':
                 m.close(); closed = True
             elif k == 'reload':
@@ -101,7 +166,9 @@ def impl(case):
                 m = load_model(params)
                 closed = False
                 v = dict(clusters=[int(x) for x in m.spike_clusters],
-                         metadata={f: {repr(kk): [type(vv).__name__, vv] for kk, vv in dd.items()} for f, dd in m.metadata.items()},
+                         # (key, value) pairs with their Python types, in the order of the dict
+                         metadata=[[f, [[[type(kk).__name__, kk], [type(vv).__name__, vv]] for kk, vv in dd.items()]]
+                                   for f, dd in m.metadata.items()],
                          templates=[int(x) for x in m.spike_templates], samples=[int(x) for x in m.spike_samples],
                          files=sorted(p.name for p in d.iterdir()),
                          # the order in which the loader's two globs list this directory
@@ -117,9 +184,10 @@ def impl(case):
                                       query=[int(x) for x in query], chq=ch,
                                       wf=np.asarray(got, dtype=np.float64).tolist(), dtype=str(got.dtype))
                 views.append(v)
+            snaps.append(_snap(d))
         if not closed:
             m.close()
-    return dict(views=views, sels=sels, init=init)
+    return dict(views=views, sels=sels, init=init, snaps=snaps)
 
 
 def _frac(x):
@@ -130,10 +198,13 @@ def _frac(x):
 def model_query(case, impl_res):
     spec = case['spec']
     ok = impl_res.get('ok') or {}
+    # when the real code raised, the verdict does not depend on the model: a well-formed default query
     init = ok.get('init') or dict(orders={}, closest=12, n_templates=len(spec['templates']),
-                                  nsw=len(spec['templates'][0]), chunks=[])
+                                  nsw=len(spec['templates'][0]), chunks=[], has_raw=False,
+                                  assign0=[[lb, list(sc)] for lb, sc in case.get('assign0', [])], pre_sel=None)
     sels = list(ok.get('sels') or [])
     views = list(ok.get('views') or [])
+    fints = {}
     ops = []
     n_sub = n_rel = 0
     for o in case['ops']:
@@ -141,7 +212,7 @@ def model_query(case, impl_res):
         if k == 'save_meta':
             ops.append(dict(k=k, field=o['field'], m=[[int(i), None if v is None else cell_of(v)] for i, v in o['m']]))
         elif k == 'write_file':
-            ops.append(dict(k=k, stem=o['stem'], tsv=(o['ext'] == 'tsv'), file=parse_foreign(o['text'], o['ext'])))
+            ops.append(dict(k=k, stem=o['stem'], tsv=(o['ext'] == 'tsv'), file=parse_foreign(o['text'], o['ext'], fints)))
         elif k == 'save_subset':
             ops.append(dict(k=k, sel=sels[n_sub] if n_sub < len(sels) else [], max_n=o['max_n']))
             n_sub += 1
@@ -156,12 +227,23 @@ def model_query(case, impl_res):
             ops.append(q)
         else:
             ops.append({kk: vv for kk, vv in o.items() if kk in ('k', 'sc')})
-    sc0 = spec.get('spike_clusters') or spec['spike_templates']
-    raw = np.array([row for part in spec['raw'] for row in part])[:, spec['channel_map']]
+    if init['has_raw']:
+        raw = np.array([row for part in spec['raw'] for row in part])[:, spec['channel_map']].tolist()
+    else:
+        raw = []
     orders = [init['orders'].get(str(t), []) for t in range(init['n_templates'])]
-    return dict(p=PID, op='history', clusters0=sc0, ops=ops, factor=_frac(case.get('factor', 1.)),
-                spike_templates=spec['spike_templates'], spike_samples=spec['spike_samples'], raw=raw.tolist(),
-                chunks=init['chunks'], orders=orders, nsw=init['nsw'], closest=init['closest'])
+    files0 = []
+    for name, text in sorted((spec.get('text_files') or {}).items()):
+        stem, _, ext = name.rpartition('.')
+        if ext in ('tsv', 'csv'):
+            files0.append(dict(stem=stem, tsv=(ext == 'tsv'), file=parse_foreign(text, ext, fints)))
+    q = dict(p=PID, op='history', assign0=init['assign0'], files0=files0, ops=ops, factor=_frac(case.get('factor', 1.)),
+             spike_templates=spec['spike_templates'], spike_samples=spec['spike_samples'], raw=raw,
+             chunks=init['chunks'], orders=orders, nsw=init['nsw'], closest=init['closest'], has_raw=init['has_raw'],
+             fints=sorted([t, n] for t, n in fints.items()))
+    if init.get('pre_sel') is not None:
+        q['subset0'] = dict(sel=init['pre_sel'], max_n=case['pre_export']['max_n'])
+    return q
 
 
 def _cells(arr3):
@@ -182,32 +264,65 @@ def _real(tv):
     if t == 'int':
         return ('int', v)
     if t == 'float':
-        return ('float', abs(hash(repr(v))) % 1000000)
+        return ('float', ftok(v))
     return ('str', v)
+
+
+def _frame(case, impl_ok, ans_ok):
+    """bytes of every file before / after every step (the opening load, then each operation): only the files the Lean
+    model names for that step (`touched`, theorem step_writes_only) may differ"""
+    steps, snaps = ans_ok['steps'], impl_ok['snaps']
+    ks = ['load'] + [o['k'] for o in case['ops']]
+    if len(steps) != len(ks) or len(snaps) != len(ks) + 1:
+        return 'MACHINERY: number of steps'
+    for i, k in enumerate(ks):
+        before, after = snaps[i], snaps[i + 1]
+        changed = {n for n in set(before) | set(after) if before.get(n) != after.get(n)}
+        allowed = set(steps[i])
+        if k in ('load', 'reload') and 'whitening_mat_inv.npy' not in before:
+            allowed.add('whitening_mat_inv.npy')       # outside the C10 model: a load computes and stores the inverse
+        extra = sorted(changed - allowed)
+        if extra:
+            what = 'step %d (%s) changed %s; the disk model writes only %s' % (i, k, extra, sorted(steps[i]))
+            if set(extra) & set(TIMES_FILES):
+                return 'SPEC: spike templates / times files rewritten: ' + what
+            return 'CORR: ' + what
+        if k == 'load' and steps[i] and not set(steps[i]) <= set(after):
+            return 'CORR: the opening load did not create %s' % steps[i]
+    return None
 
 
 def judge(case, impl_res, ans):
     if 'err' in ans:
         return 'MACHINERY: driver error %s' % ans['err']
     if 'raised' in impl_res:
-        return 'SPEC: real code raised %s (%s) at %s during an in-domain history (loading must never fail)' % (
+        return 'SPEC: real code raised %s (%s) at %s during an in-domain history (no save, export, close or load of such a history may fail)' % (
             impl_res['raised'], impl_res['msg'], impl_res['where'])
     views = impl_res['ok']['views']
     mv = ans['ok']['views']
     if len(views) != len(mv):
         return 'MACHINERY: number of reloads'
     spec = case['spec']
+    has_raw = impl_res['ok']['init']['has_raw']
+    why = _frame(case, impl_res['ok'], ans['ok'])
+    if why and not why.startswith('CORR'):
+        return why
+    frame_corr = why
     for i, (v, m) in enumerate(zip(views, mv)):
         # the property, against the abstract last-write-wins state
         if v['clusters'] != m['abs_clusters']:
             return 'SPEC: reload %d shows spike clusters %s, last saved %s' % (i, v['clusters'], m['abs_clusters'])
-        real_meta = {f: {k: _real(tv) for k, tv in dd.items()} for f, dd in v['metadata'].items()}
+        real_meta = {}
+        for f, pairs in v['metadata']:
+            real_meta[f] = {_real(kk): _real(vv) for kk, vv in pairs}
+            if len(real_meta[f]) != len(pairs):
+                return 'MACHINERY: two ids of field %r with the same type and value in one dict (nan ids are not generated)' % f
         for f, vals in m['abs_fields']:
             if f not in m['claimed']:
                 # an emptied field, or another file visited later by THIS directory order carries the field
                 # (the code does not determine which wins): only the correspondence below applies
                 continue
-            exp = {repr(int(cid)): _val(c) for cid, c in vals}
+            exp = {('int', int(cid)): _val(c) for cid, c in vals}
             if real_meta.get(f) != exp:
                 return 'SPEC: reload %d: metadata field %r is %s, last saved mapping %s' % (i, f, real_meta.get(f), exp)
         if m['templates'] != spec['spike_templates'] or m['samples'] != spec['spike_samples']:
@@ -215,8 +330,12 @@ def judge(case, impl_res, ans):
         if v['templates'] != spec['spike_templates'] or v['samples'] != spec['spike_samples']:
             return 'SPEC: reload %d: spike templates / times changed' % i
         st = v.get('store')
+        ms = m['store']
+        if st is None and ms is not None:
+            # theorem subset_present: once exported (dataset with raw data), every later reload finds the store
+            return ('SPEC: reload %d shows no subset store (spike_waveforms is None) although the subset was exported '
+                    'before (spikes %s): the exported waveforms cannot be shown' % (i, ms['ids']))
         if st is not None:
-            ms = m['store']
             if ms is None:
                 return 'CORR: reload %d: the real model has a subset store, the disk model has none' % i
             sel = st['ids']
@@ -242,8 +361,9 @@ def judge(case, impl_res, ans):
                                 '(spike %d, channel %d)' % (i, q, c))
             if not np.array_equal(got, np.array(_cells(m['wf']), dtype=np.float64)):
                 return 'CORR: reload %d: get_waveforms differs from the disk model on a channel the store does not hold' % i
-        # correspondence with the disk model (foreign files included), in the visiting order of the real directory
-        mm = {f: {repr(_cid(c)): _val(val) for c, val in rows} for f, rows in m['view']['metadata']}
+        # correspondence with the disk model (foreign files included), in the visiting order of the real directory;
+        # ids with their key type (an id written 1.0 after an id written 1 is the SAME key, shown as the int 1)
+        mm = {f: {_val(c): _val(val) for c, val in rows} for f, rows in m['view']['metadata']}
         # "next to metadata found in other TSV/CSV files": a well-formed foreign file contributes its field
         for o in case['ops']:
             if o['k'] == 'write_file' and o['kind'] == 'valid':
@@ -254,22 +374,17 @@ def judge(case, impl_res, ans):
                         i, f, o['stem'], o['ext'], real_meta.get(f), mm.get(f))
         if real_meta != mm:
             return 'CORR: reload %d: metadata %s differs from the disk model %s' % (i, real_meta, mm)
-        if m['subset'] and '_phy_spikes_subset.waveforms.npy' not in v['files'] and spec.get('raw'):
+        if m['subset'] and SUBSET_FILES[2] not in v['files']:
             return 'CORR: subset files missing'
-        if not m['subset'] and '_phy_spikes_subset.waveforms.npy' in v['files']:
-            return 'CORR: subset files present without an export'
+        if not m['subset'] and SUBSET_FILES[2] in v['files']:
+            return 'CORR: subset files present without an export' + ('' if has_raw else ' (dataset without raw data)')
         real_tables = sorted(x for x in v['files'] if x.endswith('.tsv') or x.endswith('.csv'))
         if real_tables != sorted(m['files']):
             return 'CORR: reload %d: metadata files in the directory %s, in the disk model %s' % (i, real_tables, sorted(m['files']))
-    return None
-
-
-def _cid(c):
-    if 'int' in c:
-        return c['int']
-    if 'float' in c:
-        return ('float', c['float'])
-    return c['text']
+        real_assign = sorted(x for x in v['files'] if any(fnmatch.fnmatchcase(x, pt) for pt in ASSIGN_PATTERNS))
+        if real_assign != sorted(m['assign_files']):
+            return 'CORR: reload %d: assignment files in the directory %s, in the disk model %s' % (i, real_assign, sorted(m['assign_files']))
+    return frame_corr
 
 
 def nontrivial(case):
@@ -283,16 +398,34 @@ def tally(rep, case, impl_res, ans):
     rep.count('history_len:%d' % len(case['ops']))
     rep.count('unit_factor:%s' % case.get('factor', 1.))
     rep.count('spike_times_stored_as:%s' % ('seconds (spikes.times.npy)' if case['spec'].get('times_in_seconds') else 'samples (spike_times.npy)'))
+    rep.count('assignments_in:%s' % case.get('layout', 'ks'))
+    rep.count('raw_data:%s' % ('present' if case['spec'].get('raw') else 'absent'))
+    rep.count('starts_with:%s' % ('+'.join((['subset store of an earlier session'] if case.get('pre_export') else []) +
+                                             (['metadata files'] if case['spec'].get('text_files') else [])) or 'neither store nor metadata files'))
     if 'ok' in impl_res and 'ok' in ans:
-        for v, m in zip(impl_res['ok']['views'], ans['ok']['views']):
+        saved_before = False
+        n = 0
+        exported = bool(case.get('pre_export')) and bool(case['spec'].get('raw'))
+        for o in case['ops']:
+            exported = exported or (o['k'] == 'save_subset' and bool(case['spec'].get('raw')))
+            if o['k'] != 'reload':
+                continue
+            v, m = impl_res['ok']['views'][n], ans['ok']['views'][n]
+            n += 1
             rep.count('reload:store_%s' % ('queried%s' % ((' (single spike)' if len(v['store']['ids']) == 1 else '') + (' (single column)' if len(v['store']['channels'][0]) == 1 else '')) if v.get('store') else 'absent'))
+            if exported:
+                rep.count('reload:after_an_export(store presence judged)')
             nf = len([f for f, vals in m['abs_fields'] if vals])
             rep.count('saved_fields:claimed', len(m['claimed']))
             rep.count('saved_fields:another_file_visited_later_or_overwritten', nf - len(m['claimed']))
+            for f, pairs in v['metadata']:
+                if any(kk[0] != 'int' for kk, vv in pairs):
+                    rep.count('reload:field_with_float_or_text_ids')
 
 
 def classify(case, impl_res, ans, why):
     return dict(kind=why.split(':')[0], what=why.split(':')[1].strip()[:40], raised=impl_res.get('raised'),
+                where=impl_res.get('where'), layout=case.get('layout', 'ks'),
                 ops=sorted({o['k'] for o in case['ops']}))
 
 
@@ -309,6 +442,10 @@ def shrink(case):
             closed = o['k'] == 'close'
         if ok and any(o['k'] == 'reload' for o in c):
             yield dict(case, ops=c)
+    if case.get('pre_export'):
+        yield {k: v for k, v in case.items() if k != 'pre_export'}
+    if case['spec'].get('text_files'):
+        yield dict(case, spec={k: v for k, v in case['spec'].items() if k != 'text_files'})
 
 
 def rand_history(rng, spec, L):
@@ -350,7 +487,9 @@ def rand_history(rng, spec, L):
             ops.append(dict(k=k, field=field, m=m))
         elif k == 'write_file':
             kind = rng.pick(['valid', 'empty', 'ragged', 'quote', 'no_cluster_id', 'cluster_info', 'legacy_csv', 'legacy_csv',
-                             'same_field', 'same_field', 'dup_id'])
+                             'same_field', 'same_field', 'dup_id', 'mixed_ids', 'mixed_ids'])
+            # a field this history has saved (more often than a random one: the file then competes with the saved one)
+            saved_ff = rng.pick(sorted(seen_meta)) if seen_meta and rng.random() < .6 else None
             ext = rng.pick(['tsv', 'csv'])
             dl = '\t' if ext == 'tsv' else ','
             ff = rng.pick(foreign_fields)
@@ -367,7 +506,7 @@ def rand_history(rng, spec, L):
             elif kind == 'legacy_csv':
                 # an old-style CSV carrying a field that save_metadata also writes: the saved TSV must win
                 ext, dl = 'csv', ','
-                ff = rng.pick(FIELDS)
+                ff = saved_ff or rng.pick(FIELDS)
                 # several legacy files may name the same field: the loader visits them in the directory order, which
                 # is observed at each reload and given to the Lean loader model
                 stem = rng.pick(['cluster_%ss' % ff, 'zz_legacy_' + ff, 'cluster_' + ff])
@@ -375,12 +514,20 @@ def rand_history(rng, spec, L):
             elif kind == 'same_field':
                 # a foreign file (tsv or csv) carrying a field that save_metadata also writes, before or after the save:
                 # which file is shown is decided by the order of the loader's visit (csv before tsv, directory order)
-                ff = rng.pick(FIELDS)
-                stem = rng.pick(['zz_', 'aa_', 'Cluster_']) + ff
+                # (also under the very name save_metadata uses: written before the save it is saved over, after it it
+                # replaces the saved file)
+                ff = saved_ff or rng.pick(FIELDS)
+                stem = rng.pick(['zz_', 'aa_', 'Cluster_', 'cluster_']) + ff
                 text = dl.join(['cluster_id', ff]) + '\n' + ''.join('%d%sFOREIGN%d\n' % (i, dl, i) for i in rng.sample(range(9), 3))
             elif kind == 'dup_id':
                 # a repeated cluster_id column: read_tsv builds a dict per row, the last non-empty cell is the id
                 text = dl.join(['cluster_id', ff, 'cluster_id']) + '\n' + '1%sA%s2\n' % (dl, dl) + '3%sB%s\n' % (dl, dl) + '4%sC\n' % dl
+            elif kind == 'mixed_ids':
+                # ids written differently but numerically equal (one dict key: the first row's key object, the last
+                # row's value), fractional ids, text ids
+                ids = rng.sample(['1', '1.0', '01', '1e0', '2', '2.0', '2e0', '+2', '1.5', '0', '-0', '0.0', '-0.0', 'x', '3', '3.',
+                                  ' 3', '10', '1_0', '1e1', '0.5', '5e-1'], rng.randrange(2, 7))
+                text = dl.join(['cluster_id', ff]) + '\n' + ''.join('%s%s%s\n' % (i, dl, rng.pick('ABCDEFG')) for i in ids)
             elif kind == 'no_cluster_id':
                 text = dl.join(['id', ff]) + '\n' + '1%s5\n' % dl
             else:
@@ -420,10 +567,21 @@ def rand_history(rng, spec, L):
     return ops
 
 
+KS_TABLES = {   # what KiloSort / phy leave in a sorted directory before the first curation
+    'cluster_KSLabel.tsv': 'cluster_id\tKSLabel\n0\tgood\n1\tmua\n2\tgood\n',
+    'cluster_Amplitude.tsv': 'cluster_id\tAmplitude\n0\t12.5\n1\t7.0\n2\t31.25\n',
+    'cluster_ContamPct.tsv': 'cluster_id\tContamPct\n0\t0.0\n1\t12.5\n2\t100.0\n',
+    'cluster_group.tsv': 'cluster_id\tgroup\n0\tgood\n2\tnoise\n',
+    'cluster_groups.csv': 'cluster_id,group\n1,unsorted\n',          # older phy
+    'cluster_info.tsv': 'cluster_id\tgroup\tn_spikes\n0\tzz\t5\n',  # ignored by the loader
+}
+
+
 def gen(tier, rng):
     q = tier == 'quick'
     for i in range(500 if q else 6000):
-        spec = DC.dense_spec(rng, raw=True, feats=False, curated=(i % 2 == 0), ns=rng.randrange(4, 12))
+        no_raw = (i % 11 == 7)
+        spec = DC.dense_spec(rng, raw=not no_raw, feats=False, curated=(i % 2 == 0), ns=rng.randrange(4, 12))
         if rng.random() < .5:
             # a narrow channel neighbourhood (params.py): the subset store then holds only the first 2..3 channels of
             # each template, so WHICH channels are stored matters
@@ -434,5 +592,36 @@ def gen(tier, rng):
             rate = float(spec['sample_rate'])
             if all(int(np.round(np.float64(x / rate) * rate)) == x for x in spec['spike_samples']):
                 spec['times_in_seconds'] = True
-        yield dict(p=PID, spec=spec, ops=rand_history(rng, spec, rng.randrange(2, 7 if q else 9)),
-                   factor=rng.pick([1., 1., 2., 0.5]))
+        # where the assignments live: spike_clusters.npy, the ALF name, a LABELLED ALF name (the loader globs
+        # spikes.clusters*.npy), or nowhere (the first load creates spike_clusters.npy from the templates)
+        layout = 'ks' if spec.get('spike_clusters') is not None else 'none'
+        assign0 = [[None, list(spec['spike_clusters'])]] if layout == 'ks' else []
+        if layout == 'ks' and rng.random() < .5:
+            label = rng.pick(['', '.probe00', '.probe01', '.a1b2c3', '_v2'])
+            layout = 'alf' if label == '' else 'alf_labelled'
+            sc = spec.pop('spike_clusters')
+            spec['extra_npy'] = dict(spec.get('extra_npy') or {}, **{'spikes.clusters%s.npy' % label: ['int32', list(sc)]})
+            assign0 = [[label, list(sc)]]
+        if rng.random() < .4:
+            # a directory as KiloSort / an earlier phy leaves it: `group` and `KSLabel` are also fields the history saves
+            spec['text_files'] = {k: KS_TABLES[k] for k in rng.sample(sorted(KS_TABLES), rng.randrange(1, 5))}
+        ops = rand_history(rng, spec, rng.randrange(2, 7 if q else 9))
+        if i % 7 == 4:
+            # a contest for one field between the saved cluster_<f>.tsv and a foreign .tsv, in both orders of writing:
+            # the file the directory lists LAST wins (view_field_eq_last) - the branch where the judge claims the saved
+            # mapping only if the saved file is that one
+            f = rng.pick(FIELDS)
+            stem = rng.pick(['zz_', 'aa_', 'Cluster_', 'Zcluster_']) + f
+            pair = [dict(k='save_meta', field=f, m=[[i2, rng.pick([1, 2.5, 'good'])] for i2 in rng.sample(range(8), rng.randrange(1, 4))]),
+                    dict(k='write_file', stem=stem, ext='tsv', kind='same_field', field=f, mismatch=False,
+                         text='cluster_id\t%s\n' % f + ''.join('%d\tFOREIGN%d\n' % (i2, i2) for i2 in rng.sample(range(9), 3)))]
+            if rng.random() < .5:
+                pair.reverse()
+            ops = [o for o in ops if not (o['k'] == 'write_file' and o['stem'] == stem)]
+            ops = pair + ([dict(k='reload')] if rng.random() < .5 else []) + ops
+        case = dict(p=PID, spec=spec, ops=ops,
+                    factor=rng.pick([1., 1., 2., 0.5]), layout=layout, assign0=assign0)
+        if not no_raw and rng.random() < .2:
+            # the directory already holds the subset store an earlier session exported
+            case['pre_export'] = dict(nst=rng.randrange(1, 3), rs=rng.randrange(1000), max_n=rng.pick([spec['n_channels'], 0, 0, 1, 2]))
+        yield case
